@@ -83,6 +83,16 @@ pub fn run(ctx: &Ctx, rep: &mut Report) {
             got += 1;
         }
     }
+    let mut got = 0;
+    let mut tries = 0;
+    while got < ctx.n(6_000, 300_000) && tries < 4_000_000 && ctx.time_left() {
+        tries += 1;
+        if let Some(p) = gen::sparse_terminal(&mut rng) {
+            check_position(&p, &ev, &[0, 4], rep);
+            got += 1;
+        }
+    }
+    rep.count("sparse_terminal_positions", got);
     // 3-man slice
     let of = ctx.of as u64;
     let stride = if ctx.thorough() { 2 } else { 32 };
